@@ -39,6 +39,24 @@ func genC19Host() *rapid.Generator[c19Host] {
 			return c19Host{"[" + ip + "]", ip, "ipv6"}
 		case 5:
 			h := rapid.SampledFrom([]string{"node.example.org", "eth-host-1.internal", "a.b"}).Draw(t, "dns")
+			if rapid.IntRange(0, 3).Draw(t, "longName") == 0 {
+				// DNS allows 253 characters (labels of up to 63): load-balancer and cloud names get long
+				n := rapid.SampledFrom([]int{100, 113, 120, 200, 253}).Draw(t, "nameLen")
+				h = ""
+				for len(h) < n {
+					l := 63
+					if n-len(h)-1 < l {
+						l = n - len(h)
+					}
+					if h != "" {
+						h += "."
+						l = min(l, n-len(h))
+					}
+					h += strings.Repeat("x", max(l, 1))
+				}
+				h = h[:n]
+				h = strings.TrimRight(h, ".")
+			}
 			return c19Host{h, h, "dns"}
 		case 6:
 			return c19Host{"", "", "empty"}
